@@ -37,10 +37,18 @@ class FsFaults:
         self.last_kind = {}
         self.enospc = set()
         self.deaths = 0
+        self.hits = {}            # vthread name -> number of injected errors delivered to it
+        self.kernel = None
+
+    def _hit(self):
+        vt = self.kernel.me() if self.kernel is not None else None
+        if vt is not None:
+            self.hits[vt.name] = self.hits.get(vt.name, 0) + 1
 
     def fs_op(self, fs, idx, pid, kind, path, nbytes):
         if pid in self.enospc and kind == 'write':
             self.enospc.discard(pid)
+            self._hit()
             return ('oserror', errno.ENOSPC)
         prev = self.last_kind.get(pid)
         self.last_kind[pid] = (kind, os.path.basename(path))
@@ -51,6 +59,7 @@ class FsFaults:
         if not self.tape.chance(6 if hot else 1, 24, 'fault.fire'):
             return None
         self.budget -= 1
+        self._hit()
         k = self.kind
         if k == 'mix':
             k = ('oserror', 'death')[self.tape.draw(2, 'fault.kind')]
@@ -205,6 +214,7 @@ def run_one(cfg, tape, want_trace=False):
                        pct_span=600, log_events=want_trace)
             faults = FsFaults(tape, cfg.get('fault', 'none') if phase == 0 or cfg.get('fault') == 'mix'
                               else 'none', stats)
+            faults.kernel = k
             simos = SimOS(k, exists=os.path.exists, edeadlk=True, faults=faults, stats=stats)
             fs = simfs.SimFS(root, kernel=k, tape=tape, faults=faults, stats=stats,
                              pid_of=lambda k=k: (k.me().pid if k.me() is not None else 0))
@@ -259,7 +269,7 @@ def run_one(cfg, tape, want_trace=False):
                     mods[pid] = modinst.load_lock_module(thr, simos.make_fcntl(pid), simos.make_os(pid))
                     ctxs[pid] = None
 
-            def make_client(tspec, k=k, hist=hist, ctxs=ctxs):
+            def make_client(tspec, k=k, hist=hist, ctxs=ctxs, faults=faults):
                 def body():
                     vt = k.me()
                     pid = tspec['rpid']
@@ -268,6 +278,7 @@ def run_one(cfg, tape, want_trace=False):
                         if vt.killed:
                             raise SimAbort()
                         rec = hist.invoke(vt, op)
+                        rec['hits0'] = faults.hits.get(vt.name, 0)
                         try:
                             if op['kind'] == 'retrieve_name':
                                 out = ('entry', ctx.retrieve_model_entry(POOL[op['model']]['name']))
@@ -281,6 +292,7 @@ def run_one(cfg, tape, want_trace=False):
                             if vt.killed:
                                 raise SimAbort()
                             hist.ret(rec, 'error', ex)
+                            rec['hit'] = faults.hits.get(vt.name, 0) > rec['hits0']
                         else:
                             if vt.killed:
                                 raise SimAbort()
@@ -312,8 +324,14 @@ def run_one(cfg, tape, want_trace=False):
                             ctx0.store_model_entry(e0['me'])
                             base.apply_ack(ref, op0)
                             stats['probe.hot_key_prestored'] = stats.get('probe.hot_key_prestored', 0) + 1
-                        except Exception:
-                            failed_ops.append(op0)     # e.g. PENDING left by an earlier phase
+                        except Exception as ex0:
+                            if isinstance(ex0, base._P['Pending']) and any(
+                                    f.get('model') is not None and POOL[f['model']]['key'] == e0['key']
+                                    for f in failed_ops):
+                                failed_ops.append(op0)     # PENDING left by an earlier phase (F3)
+                            else:
+                                V.viol(f'operation-failed-without-fault/{type(ex0).__name__}',
+                                       f'fault-free store of {e0["name"]} before phase {phase} raised {ex0!r}')
                 for tspec in prog['threads']:
                     k.spawn(make_client(tspec), tspec['name'], pid=tspec['rpid'])
                 outcome = k.run()
@@ -356,7 +374,7 @@ def run_one(cfg, tape, want_trace=False):
                     f'{len(k.dead_pids)} dead processes)'
             base.check_state(root, ref, list(failed_ops), V, where, all_models,
                              do_progress=(phase == nphases - 1))
-            if V.violations:
+            if any('later-transaction-in-flight-on-same-key' not in v['signature'] for v in V.violations):
                 break
     finally:
         dbmod.path_lock, ctxmod.path_lock = saved_locks
@@ -371,6 +389,44 @@ def run_one(cfg, tape, want_trace=False):
     if want_trace:
         res['phases'] = traces
     return res
+
+
+MUTATING = ('store', 'store_input', 'store_final', 'db_store_model', 'metadata', 'localfile', 'annotate',
+            'log')
+
+
+def _justify_error(r, recs, failed_ops, simos, V, stats):
+    """An operation may fail because the environment failed it (an injected error reached its
+    thread, the kernel refused a lock with EDEADLK) or because an interrupted transaction of
+    the same key left its PENDING marker (finding F3).  Any other failure of a mutating
+    operation means that storing does not "still work"."""
+    op, ex = r['op'], r['exc']
+    if op['kind'] not in MUTATING:
+        return
+    if r.get('hit'):
+        return
+    if isinstance(ex, OSError) and any(pe[1] == r['pid'] and pe[2] == ex.errno for pe in simos.produced_errors):
+        return
+    key = POOL[op['model']]['key'] if op.get('model') is not None else None
+    if isinstance(ex, base._P['Pending']) and key is not None:
+        if any(f.get('model') is not None and POOL[f['model']]['key'] == key for f in failed_ops) or any(
+                x is not r and x['status'] in ('error', 'killed') and x['inv'] < r['ret'] and
+                x['op'].get('model') is not None and POOL[x['op']['model']]['key'] == key and
+                x['op']['kind'] in MUTATING[:6] for x in recs):
+            return
+    if isinstance(ex, FileExistsError) and op['kind'] in ('store', 'store_input', 'store_final'):
+        nm = base.store_name(op)
+        if any(x is not r and x['op']['kind'] in ('store', 'store_input', 'store_final') and
+               base.store_name(x['op']) == nm and x['inv'] < r['ret'] and
+               (x['ret'] is None or x['ret'] > r['inv']) for x in recs):
+            # store_key: exists() then symlink() without a lock - two concurrent stores of the
+            # same name race and one gets FileExistsError.  The statement does not promise that
+            # concurrent stores of one name both succeed: observed (DESIGN.md O8), not flagged.
+            stats['observed.store_key_race_FileExistsError'] = \
+                stats.get('observed.store_key_race_FileExistsError', 0) + 1
+            return
+    V.viol(f'operation-failed-without-fault/{op["kind"]}/{type(ex).__name__}',
+           f'{r["vt"]}: {base.fmt_op(op)} raised {ex!r} although no fault reached it')
 
 
 def _check_history(hist, ref, failed_ops, V, stats, simos, k):
@@ -421,7 +477,9 @@ def _check_history(hist, ref, failed_ops, V, stats, simos, k):
                 bad_txn = [x for x in recs if x['status'] in ('error', 'killed') and
                            x['op'].get('model') is not None and
                            POOL[x['op']['model']]['key'] == e['key'] and
-                           x['op']['kind'] not in ('retrieve', 'log', 'annotate', 'retrieve_log')]
+                           x['inv'] < r['ret'] and
+                           x['op']['kind'] not in ('retrieve', 'retrieve_name', 'log', 'annotate',
+                                                   'retrieve_log')]
                 if isinstance(r['exc'], base._P['Pending']) and (bad_txn or any(
                         f.get('model') is not None and POOL[f['model']]['key'] == e['key']
                         for f in failed_ops)):
@@ -440,6 +498,28 @@ def _check_history(hist, ref, failed_ops, V, stats, simos, k):
                 else:
                     V.viol(f'committed-unretrievable/{type(r["exc"]).__name__}',
                            f'{r["vt"]}: retrieve of committed {e["name"]} raised {r["exc"]!r}')
+    # concurrent retrieve_log: every row was logged by somebody, verbatim, at most once
+    interrupted_logs = any(x['op']['kind'] == 'log' and x['status'] in ('error', 'killed') for x in recs) \
+        or any(f['kind'] == 'log' for f in failed_ops)
+    for r in recs:
+        if r['op']['kind'] != 'retrieve_log' or r['status'] != 'ok' or interrupted_logs:
+            continue
+        df = r['out'][1]
+        rows = list(zip(df['severity'].tolist(), df['path'].tolist(), df['message'].tolist()))
+        allowed = set(tuple(x) for x in ref.log)
+        for x in recs:
+            if x['op']['kind'] == 'log' and x['inv'] < r['ret']:
+                allowed.add((x['op']['sev'], base.log_path_of(x['op']), x['op']['msg']))
+        must = [(x['op']['sev'], base.log_path_of(x['op']), x['op']['msg']) for x in recs
+                if x['op']['kind'] == 'log' and x['status'] == 'ok' and x['ret'] < r['inv']]
+        bad = [row for row in rows if row not in allowed]
+        if bad or len(set(rows)) != len(rows):
+            V.viol('log-message-not-verbatim',
+                   f'concurrent retrieve_log by {r["vt"]}: row {bad[:1] or "duplicated"} was never logged')
+        elif any(m not in rows for m in must) or any(tuple(m) not in rows for m in ref.log):
+            V.viol('log-row-count', f'concurrent retrieve_log by {r["vt"]} misses an acknowledged message')
+        else:
+            stats['r3.concurrent_log_ok'] = stats.get('r3.concurrent_log_ok', 0) + 1
     # readers by name: a name whose store was acknowledged before the read began must resolve
     for r in recs:
         op = r['op']
@@ -521,6 +601,7 @@ def _check_history(hist, ref, failed_ops, V, stats, simos, k):
             if r['status'] == 'error':
                 stats['op.failed_with_' + type(r['exc']).__name__] = \
                     stats.get('op.failed_with_' + type(r['exc']).__name__, 0) + 1
+                _justify_error(r, recs, failed_ops, simos, V, stats)
                 if not isinstance(r['exc'], (OSError, base._P['Pending'], KeyError)):
                     # an operation may fail under an injected error, but with the error it was given
                     stats['observed.secondary_error_' + type(r['exc']).__name__] = \
